@@ -130,57 +130,53 @@ Proof.
 Qed.
 Print Assumptions tri_mass.
 
-(* (9) Random rule, UNDER the precondition that some buffered neighbour has
-   positive weight and the uniform draw is in [0,1): exactly one unit, in the
-   bin of an actual neighbour with positive weight. *)
+(* (9) Random rule, for ALL inputs (the C code now returns early when no
+   buffered neighbour has positive weight): the update list is empty exactly
+   when no neighbour has positive weight, otherwise it is one unit in the bin
+   of an actual neighbour with positive weight - whatever the stale part of
+   the Jnn buffer holds. *)
 Theorem rand_mass : forall i cJ nb u buf,
-  (length nb <= 8)%nat -> Forall (fun p => (0 <= snd p)%Q) nb ->
-  (0 < qsum (map snd nb))%Q -> (0 <= u)%Q -> (u < 1)%Q ->
-  exists p, In p nb /\ (0 < snd p)%Q /\
-            rand_updates i cJ nb u (new_buf nb buf) = [(fst p + cJ * i, 1%Q)].
+  (length nb <= 8)%nat -> Forall (fun p => (0 <= snd p)%Q) nb -> (0 <= u)%Q -> (u < 1)%Q ->
+  (~ (0 < qsum (map snd nb))%Q /\ rand_updates i cJ nb u (new_buf nb buf) = []) \/
+  ((0 < qsum (map snd nb))%Q /\
+   exists p, In p nb /\ (0 < snd p)%Q /\
+             rand_updates i cJ nb u (new_buf nb buf) = [(fst p + cJ * i, 1%Q)]).
 Proof. exact rand_update_spec. Qed.
 Print Assumptions rand_mass.
 
-(* (9') ... and WITHOUT that precondition the clause fails (finding): the C
-   code has no `sumW > 0` guard in _rand_interpolation.  A source voxel whose
-   eight neighbours are all masked/padding still adds one unit, at the stale
-   content of the Jnn buffer (here: the first neighbour of the previous voxel);
-   pv creates no such mass.  Second witness: a neighbour exists but all
-   buffered weights are 0 (integer coordinates next to a masked voxel): the
-   unit goes to Jnn[nn], again stale. *)
-Theorem rand_no_positive_weight_refuted :
-  let J := cex_J 1 0 (-1) (-1) in
-  wfJ J 2 /\ vox_inside 6 3 3 cex_v1 = true /\ neigh J 6 3 3 cex_v1 = [] /\
-  (forall u0 u1, In u0 [0; 1 # 4; 3 # 4]%Q -> In u1 [0; 1 # 4; 3 # 4]%Q ->
-     (qsum (joint_hist_rand J 6 3 3 2 2 [cex_v0; cex_v1] [u0; u1] cex_buf0) == 2)%Q /\
-     (getq (joint_hist_rand J 6 3 3 2 2 [cex_v0; cex_v1] [u0; u1] cex_buf0) (1 * 2 + 1) == 1)%Q) /\
-  (qsum (joint_hist PV J 6 3 3 2 2 [cex_v0; cex_v1]) == 1)%Q.
-Proof.
-  cbv zeta. split; [|split; [|split; [|split]]].
-  - unfold wfJ. vm_compute. repeat constructor.
-  - vm_compute. reflexivity.
-  - vm_compute. reflexivity.
-  - intros u0 u1 H0 H1. cbn [In] in H0, H1.
-    destruct H0 as [<-|[<-|[<-|[]]]]; destruct H1 as [<-|[<-|[<-|[]]]]; split; vm_compute; reflexivity.
-  - vm_compute. reflexivity.
-Qed.
-Print Assumptions rand_no_positive_weight_refuted.
+(* (9') One iteration of the interp<0 loop on any voxel, any histogram, any
+   buffer content, any draw in [0,1): either H and the random stream are
+   untouched (voxel fails the inside test, or no neighbour of positive weight),
+   or one draw is consumed and exactly one in-range bin - row vi, column = the
+   value of a positive-weight neighbour - gains one unit while every other
+   bin is unchanged.  (Before fix d23fc29 this clause was refuted: the unit
+   went to a stale buffer slot when no neighbour had positive weight.) *)
+Theorem rand_step_adds_one_unit_or_nothing : forall J d0 d1 d2 cI cJ H buf u us v,
+  wfJ J cJ -> 0 <= cJ -> vi v < cI -> length H = Z.to_nat (cI * cJ) ->
+  (0 <= u)%Q -> (u < 1)%Q ->
+  let st' := rand_step J d0 d1 d2 cJ (H, buf, u :: us) v in
+  let H' := fst (fst st') in
+  (H' = H /\ snd st' = u :: us /\
+   (vox_inside d0 d1 d2 v = false \/ ~ (0 < qsum (map snd (neigh J d0 d1 d2 v)))%Q)) \/
+  (vox_inside d0 d1 d2 v = true /\ snd st' = us /\
+   exists p, In p (neigh J d0 d1 d2 v) /\ (0 < snd p)%Q /\
+     let k := fst p + cJ * vi v in
+     0 <= fst p < cJ /\ 0 <= k < cI * cJ /\ H' = add_at k 1%Q H /\
+     (getq H' k == getq H k + 1)%Q /\ (forall m, 0 <= m -> m <> k -> getq H' m = getq H m) /\
+     (qsum H' == qsum H + 1)%Q).
+Proof. exact rand_step_spec. Qed.
+Print Assumptions rand_step_adds_one_unit_or_nothing.
 
-Theorem rand_zero_weight_neighbour_refuted :
-  let J := cex_J 1 0 (-1) 3 in
-  wfJ J 4 /\ vox_inside 6 3 3 cex_v1 = true /\ neigh J 6 3 3 cex_v1 = [(3, 0%Q)] /\
-  map Qred (joint_hist_rand J 6 3 3 2 4 [cex_v0; cex_v1] [1 # 4; 1 # 4]%Q cex_buf0)
-    = [0; 1; 0; 0;  1; 0; 0; 0]%Q /\
-  map Qred (joint_hist TRI J 6 3 3 2 4 [cex_v0; cex_v1]) = [0; 1; 0; 0;  0; 0; 0; 0]%Q.
-Proof.
-  cbv zeta. split; [|split; [|split; [|split]]].
-  - unfold wfJ. vm_compute. repeat constructor.
-  - vm_compute. reflexivity.
-  - vm_compute. reflexivity.
-  - vm_compute. reflexivity.
-  - vm_compute. reflexivity.
-Qed.
-Print Assumptions rand_zero_weight_neighbour_refuted.
+(* regression of the former counterexamples: target row [1,0,-1,-1] resp.
+   [1,0,-1,3] padded to 6x3x3, voxels at x = 1/2 and x = 2: only the first one
+   contributes now, for any stale buffer content *)
+Example rand_former_counterexamples :
+  let J1 := repeat (-1) 13 ++ [1] ++ repeat (-1) 8 ++ [0] ++ repeat (-1) 8 ++ [-1] ++ repeat (-1) 8 ++ [-1] ++ repeat (-1) 13 in
+  let J2 := repeat (-1) 13 ++ [1] ++ repeat (-1) 8 ++ [0] ++ repeat (-1) 8 ++ [-1] ++ repeat (-1) 8 ++ [3] ++ repeat (-1) 13 in
+  let vs := [mkvox 0 (1 # 2) 0 0; mkvox 1 2 0 0] in
+  map Qred (joint_hist_rand J1 6 3 3 2 2 vs [1 # 4; 1 # 4]%Q [5; 5; 5; 5; 5; 5; 5; 5]) = [0; 1; 0; 0]%Q /\
+  map Qred (joint_hist_rand J2 6 3 3 2 4 vs [1 # 4; 1 # 4]%Q [5; 5; 5; 5; 5; 5; 5; 5]) = [0; 1; 0; 0; 0; 0; 0; 0]%Q.
+Proof. cbv zeta. split; vm_compute; reflexivity. Qed.
 
 (* (10) Only non-negative source voxels whose image is strictly inside
    (-1, dim) contribute: any other voxel leaves H untouched, in every mode. *)
